@@ -339,12 +339,15 @@ def run(ctx):
             tspec["step_attrs"] = rng.choice(["consistent", "stale"])
         if rng.random() < 0.15:
             tspec["names"] = rng.choice([["t", "f"], ["x", "y"], ["frequency", "time"]])   # the last one swaps the usual names on purpose
-        ng = rng.choice([1, 1, 2, 3, 5])
+        ng = rng.choice([1, 1, 2, 3, 3, 5])
         pool = rng.choice([["BoundingBox"], list(geoms.AREAL), list(geoms.AREAL), geoms.TYPES])
         gspecs, wheres = [], []
         for _ in range(ng):
             w, gsp = _geom_on_template(rng, rng.choice(pool), t, f)
             gspecs.append(gsp); wheres.append(w)
+        if ng >= 3 and rng.random() < 0.35:
+            # the same geometry listed again later (a call annotated twice): it is painted again, over whatever came between
+            gspecs[-1] = gspecs[rng.randrange(ng - 2)]
         dtype = rng.choice(["float32", "float64", "uint8", "int16", "float32"])
         fill = rng.choice([0, 0, -1, float("nan")])
         if dtype == "uint8" and (fill == -1 or fill != fill):
